@@ -45,3 +45,13 @@ pub assume_specification<T, U, F> [std::option::Option::<T>::map_or] (o: std::op
 
 pub assume_specification<T> [bool::then_some] (b: bool, t: T) -> (r: std::option::Option<T>)
     ensures r == (if b { Some(t) } else { None::<T> });
+
+pub assume_specification<T, E, U, D, F> [std::result::Result::<T, E>::map_or_else] (r: std::result::Result<T, E>, default: D, f: F) -> (u: U)
+    where
+        D: std::ops::FnOnce(E,) -> U + std::marker::Destruct,
+        F: std::ops::FnOnce(T,) -> U + std::marker::Destruct,
+    requires
+        r is Ok ==> call_requires(f, (r->Ok_0,)),
+        r is Err ==> call_requires(default, (r->Err_0,)),
+    ensures
+        match r { Ok(t) => call_ensures(f, (t,), u), Err(e) => call_ensures(default, (e,), u) };
